@@ -140,6 +140,15 @@ def make_stub(mode, arena=None):
     return Stub()
 
 
+def res_dir_of(target):
+    """where the HTML resource folder belongs: next to the target, under the name the converter gave it - it
+    derives it from the document's name (<stem>.html_files) and the HTML file refers to it by that name,
+    whatever suffix the caller chose for the target (.html, .htm, .HTML, none)"""
+    d, f = os.path.split(target)
+    stem = f[:f.rindex(".")] if "." in f[1:] else f
+    return os.path.join(d, stem + ".html_files")
+
+
 class Arena:
     """a private base directory with out/ (target directory) and tmp/ (TMPDIR)"""
 
@@ -159,7 +168,7 @@ class Arena:
         if target_state == "nested":
             target = os.path.join(self.out, "a", "b", stem + "." + ext)
         else:
-            target = os.path.join(self.out, stem + "." + ext)
+            target = os.path.join(self.out, stem + ("." + ext if ext else ""))
         if target_state == "is_directory":
             # the requested path is an existing directory: the export has to fail and leave nothing behind
             os.makedirs(target)
@@ -169,8 +178,8 @@ class Arena:
             with open(target, "wb") as f:
                 f.write(b"OLD CONTENT")
         if target_state == "present_resources":
-            os.makedirs(target + "_files")
-            with open(os.path.join(target + "_files", "stale.png"), "wb") as f:
+            os.makedirs(res_dir_of(target))
+            with open(os.path.join(res_dir_of(target), "stale.png"), "wb") as f:
                 f.write(b"STALE")
         return target
 
@@ -258,7 +267,7 @@ def judge(ctx, case, arena, target, before, raised, tap, stub, exporter, events,
     new = {k for k in after if k not in before} - parents
     gone = {k for k in before if k not in after}
     changed = {k for k in before if k in after and before[k] != after[k]}
-    res_rel = rel + "_files"
+    res_rel = os.path.relpath(res_dir_of(target), arena.out)
     # trace rule: the target is never opened for writing before encoding finished
     for ev in events:
         if ev[0] == "open" and os.path.abspath(ev[1]) == os.path.abspath(target):
@@ -316,10 +325,12 @@ STEMS = ["doc", "table[1]", "listing [a-c]", "re*port", "a?b", "out put", "t.1.2
          "x[!y]", "50%", "a'b"]
 
 
-def run_one(ctx, env, exporter, docname, target_state, k=None, stub_mode="ok", label="", stem="doc"):
+def run_one(ctx, env, exporter, docname, target_state, k=None, stub_mode="ok", label="", stem="doc", ext=None):
     arena, inj, trace, tap, docs = env
     import rtflite
-    ext = {"rtf": "rtf", "docx": "docx", "html": "html", "pdf": "pdf"}[exporter]
+    other_ext = ext is not None
+    if ext is None:
+        ext = {"rtf": "rtf", "docx": "docx", "html": "html", "pdf": "pdf"}[exporter]
     case_crlf = target_state == "reexport_crlf"
     if case_crlf:
         target_state = "reexport"
@@ -338,7 +349,7 @@ def run_one(ctx, env, exporter, docname, target_state, k=None, stub_mode="ok", l
             data0 = open(target, "rb").read()
             with open(target, "wb") as f:
                 f.write(data0.replace(b"\n", b"\r\n"))
-        res = target + "_files"
+        res = res_dir_of(target)
         if os.path.isdir(res):
             with open(os.path.join(res, "img.png"), "wb") as f:
                 f.write(b"STALE")
@@ -363,6 +374,9 @@ def run_one(ctx, env, exporter, docname, target_state, k=None, stub_mode="ok", l
     case = {"exporter": exporter, "doc": docname,
             "target": "reexport_crlf" if case_crlf else derived if derived else target_state, "k": k,
             "stub": stub_mode}
+    if other_ext:
+        case["ext"] = ext
+        ctx.distinct("target_suffixes", ext)
     if stem != "doc":
         case["stem"] = stem
         ctx.distinct("target_file_names", stem)
@@ -496,6 +510,15 @@ def run_shard(desc, ctx):
                 for m in ("real:html_resources",):
                     ctx.count("stub_runs")
                     run_one(ctx, env, "html", "col_a", "reexport", stub_mode=m, stem=rng.choice(STEMS))
+                # the caller's own suffix for the target: .htm, upper case, none at all, a second dot
+                for x in ("htm", "HTML", "", "Html", "v2.html", "xhtml"):
+                    for t in ("absent", "present_resources", "reexport"):
+                        ctx.count("stub_runs")
+                        run_one(ctx, env, "html", rng.choice(["col_a", "plain3"]), t, stub_mode="html_resources",
+                                stem=rng.choice(STEMS[:4]), ext=x)
+                for e, x in (("docx", "DOCX"), ("pdf", ""), ("rtf", "txt"), ("rtf", ""), ("docx", "doc")):
+                    ctx.count("stub_runs")
+                    run_one(ctx, env, e, "col_a", rng.choice(["absent", "present"]), ext=x)
                 # every hostile file name with the exporter that has the most path handling
                 for stem in STEMS:
                     for t in ("absent", "present_resources"):
@@ -537,6 +560,6 @@ def replay(data, ctx):
     try:
         c = data["case"]
         run_one(ctx, env, c["exporter"], c["doc"], c["target"], k=c.get("k"), stub_mode=c.get("stub", "ok"),
-                stem=c.get("stem", "doc"))
+                stem=c.get("stem", "doc"), ext=c.get("ext"))
     finally:
         close_env(env)
